@@ -55,6 +55,15 @@ def one_case(ctx, index, rng: random.Random):
         data = gen.data_for_bins(rng, pairs, n)
         w = np.asarray([rng.randint(1, 24) / 8 for _ in range(n)], dtype=float)
         h = physt.h1(np.asarray(data, dtype=float), np.array(pairs), weights=w)
+        if kind in ("regular", "irregular") and rng.random() < 0.15:
+            # compact integer / float16 contents given directly: every bin fits the type, the sums of a run need not
+            from physt.histogram1d import Histogram1D
+
+            dt_ = rng.choice(["int16", "int32", "float16"])
+            top_ = 60000 if dt_ == "float16" else int(np.iinfo(dt_).max)
+            big_ = np.array([rng.choice([0, 1, top_ // 2, top_ - 1, top_]) for _ in range(len(pairs))]).astype(dt_)
+            h = Histogram1D(np.array([p[0] for p in pairs] + [pairs[-1][1]]), big_, errors2=big_.copy())
+            kind = f"{kind}/{dt_}"
         shape = [len(pairs)]
     else:
         kind = "nd"
@@ -62,6 +71,12 @@ def one_case(ctx, index, rng: random.Random):
         if d == 2 and shape[0] == shape[1]:
             shape[1] += rng.randint(1, 3)
         axes_pairs = [gen.pairs_from_edges(gen.edges(rng, k)) for k in shape]
+        if rng.random() < 0.25:
+            # one axis with a gap: a merge over all axes is refused as a whole (nothing half merged)
+            gx = rng.randrange(d)
+            axes_pairs[gx] = gen.gapped_pairs(rng, max(2, shape[gx]))
+            shape[gx] = len(axes_pairs[gx])
+            kind = "nd_gapped"
         n = rng.randint(0, 80)
         rows = np.array([gen.data_for_bins(rng, p, n) for p in axes_pairs], dtype=float).T.reshape(n, d)
         w = np.asarray([rng.randint(1, 24) / 8 for _ in range(n)], dtype=float)
